@@ -55,3 +55,25 @@ static inline T vp_integrand_call_proj(const struct mc_point *point, struct proj
 #endif
 #endif
 #endif
+
+/* ---- random numbers ---------------------------------------------------------------------------
+ * std::generate_canonical<T, digits>(g): ASSUMED contract (libstdc++): returns a value in [0,1] (1 can be
+ * produced for float by a known library defect, which VEGAS guards against) and advances the engine by a
+ * fixed number of raw draws; the ghost position counts canonical numbers. */
+#ifndef VP_RNG_DEFINED
+#define VP_RNG_DEFINED
+struct vp_rng { size_t pos; };
+#endif
+extern size_t vp_draws;
+extern T vp_last_u;
+#ifndef VP_NATIVE
+static inline T vp_generate_canonical(struct vp_rng *g)
+{
+  T u = nondet_T();
+  __CPROVER_assume(u >= 0 && u <= 1);
+  vp_draws = vp_draws + 1;
+  g->pos = g->pos + 1;
+  vp_last_u = u;
+  return u;
+}
+#endif
